@@ -33,8 +33,8 @@ class C12 : public Check
 public:
     const char *id() { return "C12"; }
     const char *opName(int k) { return bName(k); }
-    int quickRuns() { return 5000; }
-    int quickSeconds() { return 60; }
+    int quickRuns() { return 50000; }
+    int quickSeconds() { return 90; }
     int thoroughSeconds() { return 900; }
     const char *rule()
     {
